@@ -356,6 +356,11 @@ nextFileMatch:
 	}
 
 	for _, md := range d.repoMetaData {
+		// 🚨 SECURITY: Repository names and URL templates are results too. Do not
+		// report repositories that are tombstoned or belong to another tenant.
+		if md.Tombstone || !tenant.HasAccess(ctx, md.TenantID) {
+			continue
+		}
 		r := md
 		addRepo(&res, &r)
 		for _, v := range r.SubRepoMap {
